@@ -179,6 +179,17 @@ fn sign_then_verify<C: BlsSignatureImpl + PartialEq>(c: &Value, keys: &[SecretKe
     let sgb: Vec<u8> = Vec::from(&sig);
     let sig3 = match Signature::<C>::try_from(sgb.as_slice()) { Ok(x) => x, Err(e) => return Some(format!("signature bytes rejected: {}", e)) };
     if sk2.sign(s, m).ok()? != sig { return Some("re-imported key signs differently".into()); }
+    // ... and through every byte form of the curve-tagged wrapper
+    let tag: u8 = if c["group"] == "G1" { 1 } else { 2 };
+    let mut tagged = vec![tag]; tagged.extend_from_slice(&sk.to_be_bytes());
+    let e = match Option::<SecretKeyEnum>::from(SecretKeyEnum::from_be_bytes(&tagged)) { Some(e) => e, None => return Some("SecretKeyEnum refuses the key's tagged big-endian bytes".into()) };
+    let le = e.to_le_bytes();
+    let e2 = match Option::<SecretKeyEnum>::from(SecretKeyEnum::from_le_bytes(&le)) { Some(e) => e, None => return Some("SecretKeyEnum refuses its own little-endian bytes".into()) };
+    let e3 = match SecretKeyEnum::try_from(Vec::<u8>::from(&e).as_slice()) { Ok(e) => e, Err(x) => return Some(format!("SecretKeyEnum refuses its own bytes: {}", x)) };
+    for (route, x) in [("little-endian", e2), ("Vec<u8>", e3)] {
+        let back = x.to_be_bytes();
+        if back != tagged { return Some(format!("a key carried through the {} form of SecretKeyEnum comes back as another key or curve", route)); }
+    }
     if let Err(e) = sig3.verify(&pk2, m) { return Some(format!("re-imported signature/public key rejected: {}", e)); }
     None
 }
